@@ -10,6 +10,11 @@ import (
 
 // handle incoming SHIP messages and coordinate Handshake States
 func (c *ShipConnection) handleShipMessage(timeout bool, message []byte) {
+	// the connection was closed already, no further handshake processing
+	if c.hasShutdown() {
+		return
+	}
+
 	if len(message) > 2 {
 		var closeMsg model.ConnectionClose
 		err := c.processShipJsonMessage(message, &closeMsg)
